@@ -148,6 +148,18 @@ Proof.
 Qed.
 Print Assumptions C05_to_partial_min.
 
+(* ---- to_partial(minify=False): valid, partial, same language, and its states are exactly the
+        initial state plus the reachable and co-accessible states of the source ---- *)
+Theorem C05_to_partial_plain : forall m, valid_dfa m = true ->
+  exists P, to_partial_plain m = Ok P /\ valid_dfa P = true /\ d_syms P = d_syms m /\ d_partial P = true /\
+    L_dfa P =L L_dfa m /\
+    (forall q, In q (d_states P) <-> q = d_init m \/ (reachable m q /\ coaccessible m q)).
+Proof.
+  intros m Hv. destruct (to_partial_plain_ok m Hv) as [P [E [V [S [Pp [Hl Hs]]]]]]. exists P.
+  split; [exact E|]. split; [exact V|]. split; [exact S|]. split; [exact Pp|]. split; [apply lang_same_L; exact Hl|exact Hs].
+Qed.
+Print Assumptions C05_to_partial_plain.
+
 (* ---- the headline statement (DESIGN appendix A) ---- *)
 Theorem C05_minify : forall m, valid_dfa m = true ->
   exists R, minify m = Ok R /\ valid_dfa R = true /\ L_dfa R =L L_dfa m /\
